@@ -8,6 +8,7 @@ mod io;
 mod kdbx;
 mod keyop;
 mod legacy;
+#[cfg(feature = "merge")]
 mod merge;
 mod panicx;
 mod probe;
@@ -62,6 +63,13 @@ impl Ctx {
         }
         case["replay_args"] = J::from(ra);
         case["seed"] = J::from(self.seed);
+        if !cfg!(feature = "merge") {
+            // this build links the library with its default features only (no `_merge`)
+            case["library_features"] = J::from("without-_merge");
+            if let Some(t) = case.get_mut("tags").and_then(|t| t.as_array_mut()) {
+                t.push(J::from("library:without-_merge"));
+            }
+        }
         let s = serde_json::to_string(&case).unwrap();
         self.out.write_all(s.as_bytes()).unwrap();
         self.out.write_all(b"\n").unwrap();
@@ -131,6 +139,7 @@ fn main() {
         "iowrite" => io::run_write(&mut ctx),
         "totp" => totp::run(&mut ctx),
         "key" => keyop::run(&mut ctx),
+        #[cfg(feature = "merge")]
         "merge" => merge::run(&mut ctx),
         "probe" => probe::run(),
         "save" => saveop::run(&mut ctx, false),
